@@ -911,7 +911,9 @@ struct DCase {
 	ms: MapSpec,
 	/// 0: linked when built; 1: fixed at first, linked (instant tween) before callback `link_at`; 2: reader created before its source;
 	/// 3: like 1 but with a linear tween of 1.5 full chunks (the parameter is judged once that tween has ended);
-	/// 4: like 3 but the tween outlasts the run and S is dropped while it is running (the parameter holds from then on)
+	/// 4: like 3 but the tween outlasts the run and S is dropped while it is running (the parameter holds from then on);
+	/// 5: linked when built through the REVERSED output range, re-linked (instant tween) through the scene's mapping before
+	///    callback `link_at` (the source may be at rest at that moment)
 	link: u8,
 	/// callback before which the late link is made (link == 1)
 	link_at: usize,
@@ -941,6 +943,7 @@ impl DCase {
 				0 => "linked when built".to_string(),
 				1 => format!("fixed at first, set to the link with a zero-length tween before callback {}", self.link_at),
 				3 => format!("fixed at first, set to the link with a linear tween of 1.5 full chunks before callback {} (judged after that tween)", self.link_at),
+				5 => format!("linked when built through the mapping with the output range reversed, set to the scene's mapping with a zero-length tween before callback {} (judged from then on)", self.link_at),
 				4 => format!("fixed at first, set to the link with a linear tween of 12 full chunks before callback {} (S is dropped while that tween runs: the parameter holds the value it had)", self.link_at),
 				_ => "B created BEFORE S, B.set_offset(link) before callback 0".to_string(),
 			},
@@ -984,13 +987,13 @@ fn fam_d(tier: Tier, tk: usize, ibs: usize, ctx: &mut Ctx) {
 	let mut ord = 0;
 	for src in sources() {
 		for ms in maps() {
-			for link in 0..5u8 {
-				if (link == 2 && tk != 5) || (link == 0 && tk == 2) || ((link == 3 || link == 4) && (tk == 4 || tk == 7)) {
+			for link in 0..6u8 {
+				if (link == 2 && tk != 5) || ((link == 0 || link == 5) && tk == 2) || ((link == 3 || link == 4 || link == 5) && (tk == 4 || tk == 7)) {
 					continue;
 				}
 				let xs: Vec<Option<usize>> = tier.pick(vec![None, Some(2)], vec![None, Some(1), Some(2), Some(4)]);
 				let ss: Vec<Option<usize>> = if link == 4 { vec![Some(3), Some(5)] } else { tier.pick(vec![None, Some(5)], vec![None, Some(3), Some(5)]) };
-				let las: Vec<usize> = if link == 4 { vec![1] } else if link == 1 || link == 3 { tier.pick(vec![1], vec![1, 3]) } else { vec![0] };
+				let las: Vec<usize> = if link == 5 { vec![3] } else if link == 4 { vec![1] } else if link == 1 || link == 3 { tier.pick(vec![1], vec![1, 3]) } else { vec![0] };
 				for &drop_s in &ss {
 					for &link_at in &las {
 						// the run without the drop of X comes first: "after dropping an older modulator" is only
@@ -1046,18 +1049,31 @@ fn chain(c: &DCase, base: &[f32], ctx: &mut Ctx) -> bool {
 	};
 	let (lo, hi, init) = out_range(tk, t_chunk);
 	let late = c.link != 0;
+	let relink = c.link == 5;
 	let db = |late: bool| -> Value<Decibels> {
-		if late {
+		if late && relink {
+			c.ms.value(sid, Decibels(hi as f32), Decibels(lo as f32))
+		} else if late {
 			Value::Fixed(Decibels(init as f32))
 		} else {
 			c.ms.value(sid, Decibels(lo as f32), Decibels(hi as f32))
 		}
 	};
 	let fv = |late: bool| -> Value<f64> {
-		if late {
+		if late && relink {
+			c.ms.value(sid, hi, lo)
+		} else if late {
 			Value::Fixed(init)
 		} else {
 			c.ms.value(sid, lo, hi)
+		}
+	};
+	// clock speeds: every other mapping states its output range in ticks per minute (the same speeds)
+	let cs = |a: f64, b: f64| -> Value<ClockSpeed> {
+		if c.ms.inv || c.ms.i0 > c.ms.i1 {
+			c.ms.value(sid, ClockSpeed::TicksPerMinute(a * 60.0), ClockSpeed::TicksPerMinute(b * 60.0))
+		} else {
+			c.ms.value(sid, ClockSpeed::TicksPerSecond(a), ClockSpeed::TicksPerSecond(b))
 		}
 	};
 	let reader = |level: f32| ReaderData { shared: shared.clone(), level };
@@ -1082,7 +1098,7 @@ fn chain(c: &DCase, base: &[f32], ctx: &mut Ctx) -> bool {
 			keep.track = Some(t);
 		}
 		4 => {
-			let v: Value<ClockSpeed> = if late { Value::Fixed(ClockSpeed::TicksPerSecond(init)) } else { c.ms.value(sid, ClockSpeed::TicksPerSecond(lo), ClockSpeed::TicksPerSecond(hi)) };
+			let v: Value<ClockSpeed> = if late && relink { cs(hi, lo) } else if late { Value::Fixed(ClockSpeed::TicksPerSecond(init)) } else { cs(lo, hi) };
 			let mut ck = m.add_clock(v).unwrap();
 			ck.start();
 			*shared.clock.lock().unwrap() = Some(ck.id());
@@ -1123,10 +1139,10 @@ fn chain(c: &DCase, base: &[f32], ctx: &mut Ctx) -> bool {
 	let ltween = tween(blend_dur, Easing::Linear);
 	let link_at = match c.link {
 		0 => usize::MAX, // linked from the beginning by the builder
-		1 | 3 | 4 => c.link_at,
+		1 | 3 | 4 | 5 => c.link_at,
 		_ => 0,
 	};
-	let mut p_prev: Option<f64> = if late { Some(init) } else { None }; // expected parameter value of the previous chunk
+	let mut p_prev: Option<f64> = if late && !relink { Some(init) } else { None }; // expected parameter value of the previous chunk
 	let mut linked = !late;
 	let mut s_prev: Option<f64> = None;
 	let mut s_alive = true;
@@ -1152,7 +1168,7 @@ fn chain(c: &DCase, base: &[f32], ctx: &mut Ctx) -> bool {
 				1 => keep.track.as_mut().unwrap().set_volume(db(false), ltween),
 				2 => m.main_track().set_volume(db(false), ltween),
 				3 => keep.eff.as_mut().unwrap().set_volume(db(false), ltween),
-				4 => keep.clock.as_mut().unwrap().set_speed(c.ms.value(sid, ClockSpeed::TicksPerSecond(lo), ClockSpeed::TicksPerSecond(hi)), ltween),
+				4 => keep.clock.as_mut().unwrap().set_speed(cs(lo, hi), ltween),
 				5 | 8 => keep.b.as_mut().unwrap().set_offset(fv(false), ltween),
 				6 => keep.b.as_mut().unwrap().set_amplitude(fv(false), ltween),
 				_ => keep.b.as_mut().unwrap().set_frequency(fv(false), ltween),
@@ -1224,7 +1240,8 @@ fn chain(c: &DCase, base: &[f32], ctx: &mut Ctx) -> bool {
 			let p_exp: Option<f64> = if blending {
 				None
 			} else if !linked {
-				Some(init)
+				// (before a re-link the parameter follows the reversed mapping: not judged here)
+				if relink { None } else { Some(init) }
 			} else {
 				match s_obs {
 					Some(v) => Some(c.ms.eval(lo, hi, v)),
